@@ -27,6 +27,9 @@ func main() {
 		fmt.Fprintln(os.Stderr, err)
 		os.Exit(2)
 	}
+	if u, err := strconv.Atoi(os.Getenv("QV_UNIVERSE")); err == nil {
+		conc.Universe = u
+	}
 	ng, _ := strconv.Atoi(os.Args[2])
 	rounds, _ := strconv.Atoi(os.Args[3])
 	n := len(m.Menu)
@@ -34,8 +37,15 @@ func main() {
 	for i := 0; i < ng; i++ {
 		total *= n
 	}
+	// optional: only the assignments first..last (one process per assignment: package-level state of the library,
+	// such as buffers that grow on first use, is then fresh for every assignment)
+	first, last := 0, total-1
+	if len(os.Args) >= 6 {
+		first, _ = strconv.Atoi(os.Args[4])
+		last, _ = strconv.Atoi(os.Args[5])
+	}
 	runs := 0
-	for a := 0; a < total; a++ {
+	for a := first; a <= last && a < total; a++ {
 		progs := make([][]conc.Instr, ng)
 		x := a
 		for g := 0; g < ng; g++ {
@@ -48,5 +58,5 @@ func main() {
 		}
 		runs += rounds
 	}
-	fmt.Printf("OK assignments=%d concurrent_runs=%d\n", total, runs)
+	fmt.Printf("OK assignments=%d concurrent_runs=%d\n", last-first+1, runs)
 }
